@@ -129,7 +129,7 @@ def run(ctx):
                 "each pair is rendered with an exact DSDL expression and read; accepted iff Compliant and the stored value is "
                 "the exact rational / code point. Every case is non-trivial; distinct by (type, value)")
     ctx.assumptions = ["TLC's evaluation of the specification", "C04 establishes that the boundary expressions evaluate exactly"]
-    c02.run_cfg(ctx, "Constants", "Constants.cfg", worker, "const")
+    c02.run_cfg(ctx, "Constants", "Constants.cfg", worker, "const", shuffle=True)
     c02.consume(ctx, core.pmap(illegal_types_worker, [0], procs=1), "illegal")
     ctx.sample({"type": "int13", "value": "-(2 ** 12) - 1", "expected": "rejected"})
 
